@@ -29,7 +29,7 @@ func init() {
 			"streams: hash of the stream bytes and chunking with >= 2 frames.",
 		Assumptions: []string{"proto.Marshal/proto.Equal of golang/protobuf are trusted for the real protobuf messages",
 			"versions are <= 16 bytes and not NUL-terminated (stated domain)"},
-		Flavours: releaseThenGo126,
+		Flavours: releaseAnd386,
 		Required: []string{"long-run/calls>=100000-per-function", "kind/legacy", "kind/legacy+version", "kind/BytesValue", "kind/StringValue", "kind/BytesValue+version",
 			"body/0", "body/1", "body/70000", "ver/len=0", "ver/len=16", "ver/interior-NUL", "chunk/whole", "chunk/one-byte", "chunk/random", "chunk/data+EOF", "chunk/zero-reads",
 			"stream/frames=1", "stream/frames>=4", "stream/eof-after-last", "target/reused", "target/reused-for-empty-body", "stream/frame>1MiB-followed-by-frames", "reader/std-type", "writer/std-type", "concurrent/own-writers-and-readers", "legacy/marshal-returns-own-slice", "reader/has-Len-meaning-buffered-now", "marshal/rejected-message-then-valid-one"},
